@@ -114,6 +114,17 @@ def gen_cases(rng, tier):
         add(cls="complex", kind="spin", cplx=True, n=rng.choice([3, 4, 5, 6]), qn=qn, enc="01", sector="rand" if qn else None, method=rng.choice(["1site", "2site"]),
             prep=rng.choice(["left", "right", "warm_sum"]), procedure=proc(rng.choice([6, 8]) if full else rng.choice([3, 4]), full=full),
             nroots=rng.choice([1, 1, 2, 3]), m_init=64 if full else rng.choice([4, 8]), omega=(round(rng.uniform(0.1, 0.9), 3) if rng.random() < 0.2 else None))
+    # omega targeting with complex hermitian H, dense solver: the RETURNED state's <(H-omega)^2> is compared with the reported value
+    for rep in range(8 * mult):
+        full = rep % 4 != 3
+        qn = rng.random() < 0.6
+        add(cls="complex-omega", kind="spin", cplx=True, n=rng.choice([4, 5, 6]), qn=qn, enc="01", sector="rand" if qn else None,
+            method="2site" if rep % 2 == 0 else "1site", prep=rng.choice(["left", "right"]), omega=round(rng.uniform(0.1, 0.9), 3),
+            procedure=proc(8 if full else 3, full=full), nroots=rng.choice([1, 1, 2]), m_init=64 if full else 8, e_rtol=1e-12 if full else 1e-6, e_atol=1e-12 if full else 1e-8)
+    # ... and with the iterative solver (two-layer hop_expr)
+    for rep in range(1 if tier == "quick" else 3):
+        add(cls="complex-omega-davidson", kind="spin", cplx=True, n=10, qn=False, sector=None, method="2site" if rep != 1 else "1site", prep="left",
+            omega=round(rng.uniform(0.2, 0.8), 3), procedure=[[20, 0.2], [20, 0.0]], nroots=1, m_init=20, algo="davidson")
     # complex + iterative solver: 10 spins without quantum number, M = 20 puts the middle two-site problems (20*2*2*20) on Davidson
     for rep in range(1 if tier == "quick" else 6):
         add(cls="complex-davidson", kind="spin", cplx=True, n=10, qn=False, sector=None, method="2site" if rep % 3 != 2 else "1site", prep="left",
@@ -150,22 +161,35 @@ def gen_cases(rng, tier):
 
 def gen_heff_cases(rng, tier):
     out = []
-    for k in range(24 if tier == "quick" else 120):
-        two = k % 3 == 2
-        c = {"id": k, "seed": rng.randrange(1, 2 ** 31), "two": two, "da": rng.choice([1, 2, 3]), "db": rng.choice([1, 2, 3]),
-             "dr": rng.choice([1, 2, 3]), "bo": rng.choice([1, 2, 3])}
+    for k in range(32 if tier == "quick" else 160):
+        two = k % 2 == 1
+        om = (k // 2) % 2 == 1
+        hi = [1, 2] if om else [1, 2, 3]
+        c = {"id": k, "seed": rng.randrange(1, 2 ** 31), "two": two, "omega": om, "da": rng.choice([1, 2, 3]), "db": rng.choice(hi),
+             "dr": rng.choice([1, 2, 3]), "bo": rng.choice(hi)}
         if two:
-            c.update(p1=rng.choice([2, 3]), p2=rng.choice([2, 3]), b1=rng.choice([1, 2, 3]))
+            c.update(p1=rng.choice([2, 3]), p2=rng.choice([2, 3]), b1=rng.choice(hi))
         else:
-            c.update(p=rng.choice([2, 3, 4]))
+            c.update(p=rng.choice([2, 3]))
         out.append(c)
     return out
 
 
-def zlit(x):
-    if isinstance(x, list):
-        return "[" + "; ".join(zlit(y) for y in x) + "]"
-    return "(%d)" % x if x < 0 else "%d" % x
+def glit(x):
+    """nested [re, im] lists -> Coq list literal of Gaussian integers"""
+    if isinstance(x, list) and len(x) == 2 and all(isinstance(y, int) for y in x):
+        return "(%s, %s)" % tuple("(%d)" % y if y < 0 else "%d" % y for y in x)
+    return "[" + "; ".join(glit(y) for y in x) + "]"
+
+
+def gflat(x):
+    """nested [re, im] lists -> flat list of integers"""
+    if isinstance(x, list) and len(x) == 2 and all(isinstance(y, int) for y in x):
+        return list(x)
+    out = []
+    for y in x:
+        out += gflat(y)
+    return out
 
 
 def blit(x):
@@ -180,21 +204,28 @@ From RV Require Import Base.CRing Base.BigSum Model.Chain Model.Env Model.Heff.
 Local Open Scope Z_scope.
 Definition m3 (ml : list (list (list bool))) (a d f : nat) : bool := nth f (nth d (nth a ml []) []) false.
 Definition m4 (ml : list (list (list (list bool)))) (a d g l : nat) : bool := nth l (nth g (nth d (nth a ml []) []) []) false.
-Definition out3 (da p dr : nat) (m : nat -> nat -> nat -> bool) (T : T3 ZRing) : list Z :=
-  flat_map (fun a => flat_map (fun d => flat_map (fun f => if m a d f then [T a d f] else []) (seq 0 dr)) (seq 0 p)) (seq 0 da).
-Definition out4 (da p1 p2 dr : nat) (m : nat -> nat -> nat -> nat -> bool) (T : T4 ZRing) : list Z :=
-  flat_map (fun a => flat_map (fun d => flat_map (fun g => flat_map (fun l => if m a d g l then [T a d g l] else []) (seq 0 dr)) (seq 0 p2)) (seq 0 p1)) (seq 0 da).
+Definition out3 (da p dr : nat) (m : nat -> nat -> nat -> bool) (T : T3 GiRing) : list Z :=
+  flat_map (fun a => flat_map (fun d => flat_map (fun f => if m a d f then [fst (T a d f); snd (T a d f)] else []) (seq 0 dr)) (seq 0 p)) (seq 0 da).
+Definition out4 (da p1 p2 dr : nat) (m : nat -> nat -> nat -> nat -> bool) (T : T4 GiRing) : list Z :=
+  flat_map (fun a => flat_map (fun d => flat_map (fun g => flat_map (fun l => if m a d g l then [fst (T a d g l); snd (T a d g l)] else []) (seq 0 dr)) (seq 0 p2)) (seq 0 p1)) (seq 0 da).
 """
 
 
 def heff_coq(case, r):
+    G3, G4 = "(@of3 GiRing %s)", "(@of4 GiRing %s)"
     if case["two"]:
-        return ("Eval vm_compute in (out4 %d %d %d %d (m4 %s) (heff2_apply (R:=ZRing) %d %d %d %d %d %d %d (@of3 ZRing %s) (@of3 ZRing %s) (@of4 ZRing %s) (@of4 ZRing %s) (@of4 ZRing %s))).\n" %
-                (case["da"], case["p1"], case["p2"], case["dr"], blit(r["mask"]), case["da"], case["db"], case["p1"], case["p2"], case["dr"], case["b1"], case["bo"],
-                 zlit(r["L"]), zlit(r["R"]), zlit(r["cmo"][0]), zlit(r["cmo"][1]), zlit(r["cstruct"])))
-    return ("Eval vm_compute in (out3 %d %d %d (m3 %s) (heff1_masked (R:=ZRing) (m3 %s) %d %d %d %d %d (@of3 ZRing %s) (@of3 ZRing %s) (@of4 ZRing %s) (@of3 ZRing %s))).\n" %
+        fn = "heff_omega2" if case["omega"] else "heff2_apply"
+        env = G4 if case["omega"] else G3
+        return ("Eval vm_compute in (out4 %d %d %d %d (m4 %s) (%s (R:=GiRing) %d %d %d %d %d %d %d %s %s %s %s %s)).\n" %
+                (case["da"], case["p1"], case["p2"], case["dr"], blit(r["mask"]), fn, case["da"], case["db"], case["p1"], case["p2"], case["dr"], case["b1"], case["bo"],
+                 env % glit(r["L"]), env % glit(r["R"]), G4 % glit(r["cmo"][0]), G4 % glit(r["cmo"][1]), G4 % glit(r["cstruct"])))
+    if case["omega"]:
+        return ("Eval vm_compute in (out3 %d %d %d (m3 %s) (heff_omega1 (R:=GiRing) %d %d %d %d %d %s %s %s %s)).\n" %
+                (case["da"], case["p"], case["dr"], blit(r["mask"]), case["da"], case["db"], case["p"], case["dr"], case["bo"],
+                 G4 % glit(r["L"]), G4 % glit(r["R"]), G4 % glit(r["cmo"][0]), G3 % glit(r["cstruct"])))
+    return ("Eval vm_compute in (out3 %d %d %d (m3 %s) (heff1_masked (R:=GiRing) (m3 %s) %d %d %d %d %d %s %s %s %s)).\n" %
             (case["da"], case["p"], case["dr"], blit(r["mask"]), blit(r["mask"]), case["da"], case["db"], case["p"], case["dr"], case["bo"],
-             zlit(r["L"]), zlit(r["R"]), zlit(r["cmo"][0]), zlit(r["cstruct"])))
+             G3 % glit(r["L"]), G3 % glit(r["R"]), G4 % glit(r["cmo"][0]), G3 % glit(r["cstruct"])))
 
 
 def chunks(xs, n):
@@ -337,6 +368,7 @@ def run(ctx):
     # ---- Model/Heff.v on exact integer data
     n_heff = n_heff_ok = 0
     heff_bad = []
+    heff_tl = []
     if model_ok and hres:
         good = [c for c in hcases if c["id"] in hres and "error" not in hres[c["id"]]]
         for c in hcases:
@@ -356,10 +388,15 @@ def run(ctx):
             for c, l in zip(good[b:b + per], lists):
                 r = hres[c["id"]]
                 n_heff += 1
-                if l == r["hv_direct"] and l == r["hv_iter"]:
+                d_ok, i_ok = l == gflat(r["hv_direct"]), l == gflat(r["hv_iter"])
+                if d_ok and i_ok:
                     n_heff_ok += 1
-                else:
-                    heff_bad.append({"what": "effective operator differs", "case": c, "model": l, "get_ham_direct": r["hv_direct"], "hop_expr": r["hv_iter"]})
+                if not i_ok and c["omega"]:
+                    heff_tl.append({"what": "hop_expr(..., twolayer=True) differs from the two-layer operator (it applies the transpose)", "case": c,
+                                    "model": l[:12], "hop_expr": gflat(r["hv_iter"])[:12], "get_ham_direct_agrees": d_ok})
+                if not d_ok or (not i_ok and not c["omega"]):
+                    heff_bad.append({"what": "effective operator differs", "case": c, "model": l[:12], "get_ham_direct": gflat(r["hv_direct"])[:12],
+                                     "hop_expr": gflat(r["hv_iter"])[:12], "direct_ok": d_ok, "iterative_ok": i_ok})
     # ---- Model/TreeOpt.v traces
     tparams = {}
     for c in trees:
@@ -497,9 +534,22 @@ def run(ctx):
         ctx.violation("sweep-proofs", "theorem(s) of Props/C08.v no longer check against the regenerated Gen/SweepSched.v: " + ", ".join(failing),
                       {"coq_log_tail": (log or "")[-1800:], "failing_input_class": found_cls,
                        "first_failure": classes[found_cls][0][1] if found_cls else None}, found=bool(found_cls), repro=repro)
+    import c08_heff_repro as HR
     if heff_bad:
-        ctx.violation("chain:heff-correspondence", "correspondence: get_ham_direct / hop_expr vs Model/Heff.v (heff_is_projection no longer describes the code)",
-                      {"n_failing_cases": len(heff_bad), "first": heff_bad[0]}, found=False)
+        c0 = heff_bad[0]["case"]
+        ctx.violation("chain:heff-correspondence", "correspondence: get_ham_direct / hop_expr vs Model/Heff.v on exact Gaussian-integer data (heff_is_projection no longer describes the code)",
+                      {"n_failing_cases": len(heff_bad), "first": heff_bad[0]}, found=True,
+                      repro=HR.REPRO % (json.dumps(c0), "d > 1e-9" if c0["omega"] else "d > 1e-9 or i > 1e-9"))
+    if heff_tl or "omega-iterative-transposed" in classes:
+        c0 = heff_tl[0]["case"] if heff_tl else None
+        items = classes.pop("omega-iterative-transposed", [])
+        ctx.violation("chain:omega-iterative-transposed",
+                      "correspondence + dense oracle: with omega the iterative solver applies the TRANSPOSE of P^dagger (H-omega)^2 P (hop_expr, twolayer=True); "
+                      "for complex Hermitian H the vector written into the state is the complex conjugate of the minimiser",
+                      {"n_failing_heff_cases": len(heff_tl), "first_heff": heff_tl[0] if heff_tl else None,
+                       "n_failing_dmrg_cases": len(items), "first_dmrg": {"case": items[0][0], "detail": items[0][1]} if items else None},
+                      found=True,
+                      repro=(HR.REPRO % (json.dumps(c0), "i > 1e-9")) if c0 else (REPRO_CHAIN % (json.dumps(items[0][0]), "omega-iterative-transposed", "omega-iterative-transposed")))
     for cb in corr_bad:
         ctx.violation("trace-model-eval", "correspondence: the Coq model could not be evaluated", cb, found=False)
     order = ["variational-bound", "witness-projection", "witness-rayleigh", "witness-isometry", "witness-sector", "witness-hook", "full-bond-exactness",
